@@ -20,6 +20,24 @@ def loops(k, header, kw):
             f"  forall|j: int| 0 <= j < {i} ==> #[trigger] arg_types@[j] == expr_ty(args_tast@[j]),\n decreases args.len() - {i},")
 
 
+def constr_loops(k, header, kw):
+    mt = re.search(r"while\s+(__fk\d+)\s*<\s*args\.len\(\)", header)
+    if mt:
+        i = mt.group(1)
+        return f"invariant {i} <= args.len(), args_tast@.len() == {i},\n decreases args.len() - {i},"
+    mt = re.search(r"while\s+(__zk\d+)\s*<\s*args\.len\(\)\s*&&\s*__zk\d+\s*<\s*param_tys\.len\(\)", header)
+    if mt:
+        i = mt.group(1)
+        return (f"invariant {i} <= args.len(), {i} <= param_tys.len(), args_tast@.len() == {i},\n"
+                f"  forall|j: int| 0 <= j < {i} ==> checked_as(#[trigger] args@[j], param_tys@[j], args_tast@[j]),\n decreases args.len() - {i},")
+    mt = re.search(r"while\s+__mi(\d+)\s*<\s*args_tast\.len\(\)", header)
+    if mt:
+        i = mt.group(1)
+        return (f"invariant __mi{i} <= args_tast.len(), __mo{i}@.len() == __mi{i}, forall|j: int| 0 <= j < __mi{i} ==> #[trigger] __mo{i}@[j] == expr_ty(args_tast@[j]),\n"
+                f" decreases args_tast.len() - __mi{i},")
+    return None
+
+
 def named_loops(k, header, kw):
     mt = re.search(r"while\s+(__fk\d+)\s*<\s*args\.len\(\)", header)
     if mt:
@@ -103,6 +121,19 @@ UNIT = Unit(
            obligation="a call by name: when the callee's parameter list fits the call, every argument is checked against its parameter's type, in order; the callee's type is an instance of the declared scheme",
            contract="ensures named_args_ok(*genv, hint@, args@, r),",
            loop_fn=named_loops),
+        Fn(file=C, name="infer_constructor_expr", container="Typer", as_method_of="Typer", rename="constr_args", ret="r", attrs="#[verifier::loop_isolation(false)]",
+           rules=["attrs", "fmtmsg", ("strip", "tast::"), ("strip", "hir::"), ("strip", "common::"), ("strip", "super::util::"), "iter_map_collect", "for_zip", "for_index"],
+           cut_from="let inst_constr_ty = self.inst_ty(&constr_ty);", cut_tail="",
+           sig="pub fn constr_args(&mut self, genv: &PackageTypeEnv, local_env: &mut LocalTypeEnv, diagnostics: &mut Diagnostics, expr_id: ExprId, args: &Vec<ExprId>, "
+               "constructor: Constructor, constr_ty: Ty) -> Expr",
+           pre_rewrites=[("let mut args_tast = Vec::new();", "let mut args_tast: Vec<Expr> = Vec::new();", "*"), (re.compile(r"self\s*\.results\s*\.record_"), "self.record_", "*"),
+                         (re.compile(r"!(\w+)\.is_empty\(\)"), r"(\1.len() > 0)", "*"), (re.compile(r"\b(\w+)\.is_empty\(\)"), r"(\1.len() == 0)", "*"),
+                         ("_ => Vec::new(),", "_ => Vec::<Ty>::new(),", "*")],
+           rewrites=[VC, PUSHED, (re.compile(r"params: \{ let mut (__mo\d+) = Vec::new\(\);"), r"params: { let mut \1: Vec<Ty> = Vec::new();", "*")],
+           obligation="a constructor application: every argument is checked against the declared type of its field, in order; the instantiated constructor type is equated with "
+                      "(types of the elaborated arguments) -> (the value's type)",
+           contract="ensures constr_ok(constr_ty, args@, constructor, r, final(self).recorded()),",
+           loop_fn=constr_loops),
         named_tail(1, START + r"(?=.*" + START + ")"),
         named_tail(2, START + r"(?!.*" + START + ")"),
         Fn(file=C, name="infer_call_expr", container="Typer", as_method_of="Typer", rename="call_expr_tail", ret="r",
